@@ -13,7 +13,7 @@ META = dict(
         "from the scanner grammar, every allowed HTML tag, every uniquified extension tag, entities (ill-formed, out of range, "
         "surrogate, huge), template syntax, control/non-BMP characters, cleaner-trigger attributes. Oracle: parse_string returns an "
         "Article, raises nothing, stays under the deterministic call budget 4e5+4e3n+40n^2; growth law work(u*2n) <= 8*work(u*n)+5e4 "
-        "for units u of <= 6 lexemes, n in {25,50,100}. Failures are bucketed by (exception type, innermost repo frame) and shrunk by "
+        "for units u of <= 6 lexemes, n in {25,50,100} (a CPU-limit hit at n >= 100 whose smaller sizes grew <= 8x per doubling is cubic time, which the statement allows: counted, not reported). Failures are bucketed by (exception type, innermost repo frame) and shrunk by "
         "ddmin over the lexeme list. Non-trivial: >= 2 markup lexeme classes and a non-Text node below the article; distinct = text+lang+db."
     ),
     assumptions=[
@@ -22,7 +22,7 @@ META = dict(
         "work is counted as Python call/c_call events (sys.setprofile); work inside Cython/C code is invisible to the counter and "
         "only bounded by the 15 s CPU limit",
     ],
-    floors={"nontrivial": (0.3, None), "db": (0.2, None), "class:entity": (0.05, None), "kind:nest": (0.1, None), "kind:mutdoc": (0.1, None)},
+    floors={"nontrivial": (0.3, None), "db": (0.2, None), "class:entity": (0.05, None), "kind:nest": (0.1, None), "kind:mutdoc": (0.04, None), "kind:misnest": (0.04, None)},
     stall_s=180,
 )
 
@@ -59,12 +59,26 @@ def replay(ctx, case):
 
 
 def growth(ctx, case):
+    import time
+
     unit = "".join(case["parts"])
     works = {}
+    cpu = {}
     for n in (25, 50, 100, 200):
         c = dict(parts=[unit * n], lang=case["lang"], db=case.get("db"))
+        t0 = time.process_time()
         tree, w, fail = _tree.parse(c)
+        cpu[n] = time.process_time() - t0
         if fail:
+            if fail[0] == "hang:cpu-limit" and n >= 100 and cpu[n // 2] <= 8 * cpu[n // 4] + 0.05 and 8 * cpu[n // 2] >= 0.5 * _tree.CPU_LIMIT:
+                # the smaller sizes grew by at most 8x per doubling (degree <= 3, what the statement allows) and that rate
+                # predicts the limit for this size: slow, but not a blow-up - recorded, not reported
+                _tree._cpu_hits[0] = max(0, _tree._cpu_hits[0] - 1)  # not an overrun that should end the shard's search
+                ctx.labels["ladder:cubic-time-reached-the-cpu-limit"] = ctx.labels.get("ladder:cubic-time-reached-the-cpu-limit", 0) + 1
+                ctx.notes.setdefault("slow_but_polynomial_units", [])
+                if len(ctx.notes["slow_but_polynomial_units"]) < 3:
+                    ctx.notes["slow_but_polynomial_units"].append(dict(unit=unit[:200], db=case.get("db") is not None, cpu_seconds={str(k): round(v, 2) for k, v in cpu.items()}))
+                return works
             ctx.fail("ladder:" + fail[0], dict(slim(case), ladder=True, repeat=n), fail[1])
             return works
         works[n] = w
@@ -111,8 +125,8 @@ def run_shard(ctx):
     @given(S.soup(6), st.sampled_from(_tree.LANGS), st.one_of(st.none(), _tree.template_universe()))
     def g(lex, lang, db):
         case = dict(parts=[l for _, l in lex], lang=lang, db=db, ladder=True)
-        if not "".join(case["parts"]) or _tree.exhausted():
-            return
+        if not "".join(case["parts"]) or _tree.exhausted() or len("".join(case["parts"])) > 400:
+            return  # (a unit of kilobytes repeated 200 times is megabytes of input: the law is about short units)
         ctx.announce(case)
         works = growth(ctx, case)
         ctx.record("ladder" + jdump(case), ["ladder"], True, sample=dict(unit="".join(case["parts"])[:100], work=works))
